@@ -13,7 +13,7 @@
 import GIV.Basic
 import GIV.Model.Txtar
 import GIV.Model.Script
-import GIV.Gen.TsRun
+import GIV.Gen.TsRunUpdate
 
 namespace GIV.TsRun.Update
 open GIV GIV.Txtar
@@ -52,18 +52,18 @@ deriving DecidableEq, Repr
 
 /-- The update test of doCmdCmp: `ts.params.UpdateScripts && !env`, then membership in scriptFiles. -/
 def updateApplies (i : CmpIn) : Bool :=
-  if Gen.TsRun.updateCondFlagAndNotEnv then i.updateScripts && !i.env else i.updateScripts
+  if Gen.TsRunUpdate.updateCondFlagAndNotEnv then i.updateScripts && !i.env else i.updateScripts
 
 /-- doCmdCmp from `eq := text1 == text2` on. -/
 def doCmp (i : CmpIn) : CmpOut :=
   let eq : Bool := i.text1 == i.text2
   let upd : CmpOut :=
     if updateApplies i then
-      match (if Gen.TsRun.updateKeyIsAbsName2 then i.entry else none) with
-      | some name => .recorded name (if Gen.TsRun.updateStoresText1 then i.text1 else i.text2)
+      match (if Gen.TsRunUpdate.updateKeyIsAbsName2 then i.entry else none) with
+      | some name => .recorded name (if Gen.TsRunUpdate.updateStoresText1 then i.text1 else i.text2)
       | none => .fatal
     else .fatal
-  if Gen.TsRun.updateAfterNegAndEq then
+  if Gen.TsRunUpdate.updateAfterNegAndEq then
     if i.neg then (if eq then .fatal else .ok)
     else if eq then .ok
     else upd
@@ -83,7 +83,7 @@ def updData (c : Bytes) : Except ApplyErr Bytes :=
   match needsQuote c with
   | none => .error .panic
   | some nq =>
-    if nq && Gen.TsRun.applyQuotesWhenNeeded then
+    if nq && Gen.TsRunUpdate.applyQuotesWhenNeeded then
       match quote c with
       | .ok q => .ok q
       | .error _ => .error .quote
@@ -118,13 +118,13 @@ def applyUpdates (a : Archive) (u : Updates) : Except ApplyErr Archive :=
 /-- What the deferred applyScriptUpdates makes of the run: the verdict and the bytes of the script
 file afterwards (`file` = its bytes before, `a` = `txtar.Parse file`, `v` = the verdict so far). -/
 def finish (v : Verdict) (file : Bytes) (a : Archive) (u : Updates) : Verdict × Bytes :=
-  if u.isEmpty && Gen.TsRun.applyNoopWhenEmpty then (v, file) else
+  if u.isEmpty && Gen.TsRunUpdate.applyNoopWhenEmpty then (v, file) else
   match applyUpdates a u with
-  | .ok a' => (v, if Gen.TsRun.applyWritesFormat then format a' else file)
+  | .ok a' => (v, if Gen.TsRunUpdate.applyWritesFormat then format a' else file)
   | .error .quote =>
     -- Fatalf: caught by the deferred catchFailNow → T.FailNow (replacing whatever was unwinding);
     -- uncaught it is a failNow panic that nobody recovers
-    (if Gen.TsRun.updateFatalCaught then .fail else .crash, file)
+    (if Gen.TsRunUpdate.updateFatalCaught then .fail else .crash, file)
   | .error .panic => (.crash, file)
 
 /-- Content that a txtar entry can hold verbatim. -/
